@@ -40,6 +40,7 @@ Section Args.
 
   (** a field selection with an entry in [typeInfo.FieldDefinitions] *)
   Record afield := {
+    af_name : bytes;                                        (* "Type.field": which definition (only a label) *)
     af_argdefs : list (Values.name * Values.in_def);        (* def.Arguments *)
     af_args : list (Values.name * Values.lit);              (* selection.Arguments *)
     af_cost : option (C -> amap -> option (fcost C))        (* def.Cost; [None]: nil; result [None]: it panics *)
@@ -122,7 +123,7 @@ Section Args.
     (exists o, In o ops /\ field_in (ao_body o) f) \/ (exists p, In p frs /\ field_in (snd p) f).
 End Args.
 
-Arguments af_argdefs {C}. Arguments af_args {C}. Arguments af_cost {C}.
+Arguments af_name {C}. Arguments af_argdefs {C}. Arguments af_args {C}. Arguments af_cost {C}.
 Arguments Build_afield {C}.
 Arguments AField {C} f. Arguments ANoDef {C} is_typename. Arguments ASpread {C} name. Arguments AOther {C}.
 Arguments ANode {C} k kids.
